@@ -101,6 +101,11 @@ func (f *Do) Call(s *slip.Scope, args slip.List, depth int) (result slip.Object)
 							break
 						}
 					}
+					if len(args) <= i {
+						// Not a tag of this body, it is for an outer
+						// tagbody.
+						return tr
+					}
 				}
 				// Anything other than ReturnResult or GoTo just continues.
 			}
